@@ -10,21 +10,25 @@ USES_FACTS = True
 DRIVER = "shootmodel_rest"
 
 MANIFEST = dict(
-    text="Lean 4 theorems over a model of `shoot rest` (hand recognisers for the directive regexes, the parameter classification of "
-         "handleExpr/handleStruct, the emitted request assembly `send`): the request directive reads back for all five verbs in any "
-         "spelling, quoted or not (C06_parse_roundtrip); header set = verb defaults overridden by the interface directive (C06_headers); "
-         "for every method and argument vector of region WF the single request carries the directive's verb, the path with every "
-         "placeholder replaced by its alias-resolved argument, the query holding exactly the non-path scalars, struct fields and map "
-         "entries under alias-or-name with nil pointers omitted, the struct argument as body for POST/PUT/PATCH, and the caller's context "
-         "(C06_request, C06_query, C06_placeholders, C06_body, C06_ctx, C06_one_request). Five finding regions with witness theorems. "
-         "Tied to the code by generating clients with the rebuilt `shoot rest` from random interfaces, compiling them and recording the "
-         "requests they send through a recording RoundTripper for 3-4 argument vectors per method (nil pointers, URL-unsafe strings); the "
-         "model's symbolic url.JoinPath / Values.Encode / Header.Add / json.Marshal are evaluated by the real functions.",
-    note="Lean kernel + standard axioms. Proved at method level (directives parsed to their meaning -> request); the alias/headers "
-         "recognisers and the interface-level glue (method collection, compile/format failures) are tied by the correspondence only. "
-         "Known findings: F_ptrDict, F_twoDicts, F_qualScalar, F_nilStructDeref, F_pathArgBrace (F_mixedCtx and F_bodyNoStruct were repaired in /repo).",
-    technique="Lean 4 proof (induction over parameter lists, token lists, Go-map association lists) + differential model/implementation "
-              "correspondence on generated, compiled and executed clients",
+    text="Lean 4 theorems over a model of `shoot rest`: exact doc-level recognisers for the five directive regexps (leftmost-first semantics incl. "
+         "backtracking of `\\W*`, multi-line `headers=` continuation), the parameter classification of handleExpr/handleStruct, the emitted request "
+         "assembly `send`. Proved: every recogniser reads a directive written in the documented form as what it says (C06_parse_roundtrip, "
+         "C06_kv/alias/headers/field_alias_roundtrip); header set = the REGENERATED DefaultHeaders table of cook.go overridden by the interface "
+         "directive and body verbs = the regenerated BodyHTTPMethods (C06_facts_*, C06_headers_facts, C06_body_facts: a source edit of either table "
+         "breaks the obligation); for every method and argument vector of region WF the single request carries the directive's verb, the path with "
+         "every placeholder replaced by its alias-resolved argument, the query holding exactly the non-path scalars, struct fields and map entries "
+         "under alias-or-name with nil pointers omitted, the struct argument as body for POST/PUT/PATCH, and the caller's context (C06_request, "
+         "C06_query, C06_placeholders, C06_body, C06_ctx, C06_one_request); duplicate aliases are rejected (C06_dup_alias_rejected). Seven finding "
+         "regions with witness theorems. Tied to the code (a) by generating clients with the rebuilt `shoot rest` from random interfaces, compiling "
+         "them and recording the requests they send through a recording RoundTripper (nil pointers, URL-unsafe strings; url.JoinPath / "
+         "Values.Encode / Header.Add / json.Marshal evaluated by the real functions), (b) by an in-process differential of the recognisers against "
+         "the real regexps (verif hook internal/restclient/verif_export.go) on thousands of random and rendered texts.",
+    note="Lean kernel + standard axioms. Proved at method level (directives parsed to their meaning -> request); the interface-level glue "
+         "(method collection, compile failures) is tied by the correspondence. Known findings: F_ptrDict, F_twoDicts, F_qualScalar, "
+         "F_structElsewhere, F_headerValue, F_nilStructDeref, F_pathArgBrace (F_mixedCtx, F_bodyNoStruct and the duplicate-alias order dependence "
+         "were repaired in /repo and are asserted as WF / Rejected). Repair patches: notes/proposed/REST_REPAIRS.md.",
+    technique="Lean 4 proof (induction over parameter lists, token lists, Go-map association lists, directive texts) + differential model/implementation "
+              "correspondence on generated, compiled and executed clients + in-process regexp differential + regenerated facts tables",
     design="5/C06")
 
 FINDING_REGIONS = ["F_ptrDict", "F_twoDicts", "F_qualScalar", "F_nilStructDeref", "F_pathArgBrace"]
@@ -111,6 +115,25 @@ def shaped(ctx, g):
         if p["kind"] == "struct":
             p["ptr"] = True
     out.append(("nilbody", i, calls_for(g, i, 2, nil_struct=1.0)))
+    # F_structElsewhere: the struct type is declared in another file of the package (types.go)
+    for vi, verb in enumerate(("GET", "POST", "DELETE")):
+        i = g.iface(name="Client", nmethods=1, ctx=True, verb=verb, struct=True, where="other")
+        if vi == 2:
+            for p in i["methods"][0]["params"]:
+                if p["kind"] == "struct":
+                    p["ptr"] = True
+        out.append(("elsewhere%d" % vi, i, calls_for(g, i, 3)))
+    # F_headerValue: a header value that starts with punctuation
+    i = g.iface(name="Client", nmethods=2, ctx=True)
+    i["headers"], i["hbreaks"] = [("Accept", "*/*"), ("X-Env", "test")], []
+    out.append(("hdrpunct", i, calls_for(g, i, 1)))
+    i = g.iface(name="Client", nmethods=1, ctx=True)
+    i["headers"], i["hbreaks"] = [("X-Mode", "-fast")], []
+    out.append(("hdrpunct2", i, calls_for(g, i, 1)))
+    # multi-line headers directive, non-canonical keys (WF)
+    i = g.iface(name="Client", nmethods=2, ctx=True)
+    i["headers"], i["hbreaks"] = [("Authorization", "Bearer abc"), ("x-env", "test"), ("Accept", "text/plain"), ("X-B", "1")], [0, 2]
+    out.append(("hdrlines", i, calls_for(g, i, 1)))
     # Rejected: two parameters with the same alias (62d8144: diagnosed, exit 1, no file)
     for verb in ("GET", "PUT"):
         i = g.iface(name="Client", nmethods=2, ctx=True, verb=verb, nscalar=3, nph=1)
@@ -177,7 +200,7 @@ def make_dup_alias(rng, m):
 def perturb(rng, i):
     """push a random interface into the finding regions (the model must still predict the implementation exactly)"""
     kw = {}
-    for what in rng.sample(["mixed", "nostruct", "ptrdict", "twodicts", "qual", "nilstruct", "brace", "dupalias"], rng.choice([1, 1, 2])):
+    for what in rng.sample(["mixed", "nostruct", "ptrdict", "twodicts", "qual", "nilstruct", "brace", "dupalias", "elsewhere", "hdrpunct"], rng.choice([1, 1, 2])):
         ms = i["methods"]
         m = rng.choice(ms)
         qverb = m["verb"] not in restgen.BODY_VERBS
@@ -196,6 +219,12 @@ def perturb(rng, i):
             m["params"].append({"name": "wait", "kind": "qual", "type": "time.Duration", "ptr": False, "role": "query"})
         elif what == "dupalias":
             make_dup_alias(rng, m)
+        elif what == "elsewhere":
+            for p in m["params"]:
+                if p["kind"] == "struct" and p["struct"].get("where") == "same" and not any(f.get("ptr") for f in p["struct"]["fields"]):
+                    p["struct"]["where"] = "other"
+        elif what == "hdrpunct":
+            i["headers"], i["hbreaks"] = [("Accept", "*/*")] + [h for h in (i.get("headers") or []) if h[0] != "Accept"], []
         elif what == "nilstruct":
             kw["nil_struct"] = 0.6
         elif what == "brace":
@@ -314,10 +343,16 @@ def run_cases(ctx, cases):
     for c in cases:
         m = model.get(c["id"])
         if m:
-            # what the recognisers read is not observable from outside: model-vs-spec only
-            for k, v in m["spec"].items():
-                if k.startswith("parse."):
-                    impl[c["id"]][k] = v
+            # what the recognisers read is not observable from outside: model-vs-spec only, asserted in WF; in a finding
+            # region the reading may be the defect itself (F_headerValue), so it is not compared there
+            if (m["region"] or "WF") == "WF":
+                for k, v in m["spec"].items():
+                    if k.startswith("parse."):
+                        impl[c["id"]][k] = v
+            else:
+                for side in ("model", "spec"):
+                    for k in [k for k in m[side] if k.startswith("parse.")]:
+                        del m[side][k]
     return impl, model
 
 
@@ -332,6 +367,10 @@ def features(c):
     i = c["iface"]
     if i.get("headers"):
         f.append("iface-headers")
+        if i.get("hbreaks"):
+            f.append("iface-headers-multiline")
+        if any(k != "-".join(w[:1].upper() + w[1:].lower() for w in k.split("-")) for k, _ in i["headers"]):
+            f.append("iface-headers-noncanonical-key")
     for m in i["methods"]:
         f.append("verb:" + m["verb"])
         f.append("quoted" if m["quoted"] else "unquoted")
@@ -378,7 +417,7 @@ def run(ctx, obl):
     for c in cases:
         i = c["iface"]
         if i.get("headers"):
-            docs.append("shoot: headers=" + ",".join("{%s:%s}" % kv for kv in i["headers"]) + "\n")
+            docs.append(restgen.header_doc(i))
         for m in i["methods"]:
             docs.append(restgen.method_doc(m))
         for st in i.get("structs", []):
